@@ -174,10 +174,10 @@ def probe_tables():
     # raise when the response is streamed?  (then an InternalRedirect out of a streaming page becomes a 500)
     probe = base_plan([base_page(handler=['ir1', 'bytes', None], stream=1), base_page()])
     obs = run_real(probe)
-    first = obs['starts'][0][0][:3] if obs['starts'] else '???'
-    if first not in ('200', '500'):
-        raise common.HarnessError('close-before-iter probe answered %r' % first)
-    close_raises = first == '500'
+    first = obs['starts'][0][0][:3] if obs['starts'] and isinstance(obs['starts'][0][0], str) else '???'
+    # anything but a clean 200 keeps the flag set: a tree on which this probe itself misbehaves (escaping
+    # exception, no response) is for the check proper to report, with a replayable plan
+    close_raises = first != '200'
     return {'close_before_iter_raises': close_raises, 'valid': _ranges(valid), 'falsy': falsy, 'he_ok': _ranges(he_ok), 'he_exc': _ranges(he_exc),
             'he_fallback': sorted(he_fallback)[0], 'hr_ok': _ranges(hr_ok), 'hr_known': hr_known,
             'nobody': _ranges(nobody), 'hookpoints': list(_cprequest.hookpoints)}
